@@ -12,7 +12,10 @@
     * `for session in range(1, 0x80)`                                            -> `List.foldl probeOne` carrying the
       `recover_stack` flag,
     * `_recover_stack`                                                           -> `recoverStack`,
-    * `set_session_with_hooks_handling` (conditionsNotCorrect + `--with-hooks`) -> `dsc`,
+    * `set_session_with_hooks_handling` (conditionsNotCorrect + `--with-hooks`) -> `dsc`: a second attempt through
+      `ECU.set_session(skip_hooks=False)`, i.e. the requests of `set_session_pre`, `10 s`, and after a positive reply
+      the requests of `set_session_post` (`dscHooked`); the ECU may answer the hooked attempt differently (`Ecu.gh`),
+    * `--reset`: ECUReset, `wait_for_ecu` with the ECU's boot phase of unanswered pings (`doReset`),
     * the retransmissions of `UDSClient.request_unsafe` on silence / busyRepeatRequest -> `repeats`,
     * `sys.exit(1)` when the stack cannot be recovered                           -> `aborted`,
     * the final classification (sorted, one line per distinct session, negative results filtered) -> `result`,
@@ -35,6 +38,11 @@ structure Ecu where
   g : Sess → Sess → Ans
   /-- answer to ECUReset while in session `p` -/
   rst : Sess → Ans
+  /-- answer to `10 u` while in session `p` when the requests of the `set_session_pre` hook came right before it
+      (an OEM hook that establishes the conditions for the session change) -/
+  gh : Sess → Sess → Ans := g
+  /-- pings that stay unanswered after an accepted ECUReset in session `p` (boot phase; shorter than the wait) -/
+  boot : Sess → Nat := fun _ => 0
 
 structure Cfg where
   depth : Nat
@@ -45,12 +53,16 @@ structure Cfg where
   hooks : Bool := false
   /-- `max_retry` of the UDS client -/
   maxRetry : Nat := 0
+  /-- the requests `ECU.set_session_pre` / `set_session_post` of the ECU class send (2-byte PDUs as numbers;
+      the base class sends none) -/
+  preHook : List Nat := []
+  postHook : List Nat := []
 
 /-- `list(range(1, 0x80))` -/
 def sessions : List Sess := (List.range 0x7F).map (· + 1)
 
 inductive Kind where
-  | recover | probe | reset | ping
+  | recover | probe | reset | ping | hook
   deriving DecidableEq, Repr
 
 /-- one request as seen by the ECU -/
@@ -103,13 +115,47 @@ def dscOnce (c : Cfg) (E : Ecu) (k : Kind) (top : Nat) (s : Sess) (st : St) : St
   | .pos => ({ st with cur := s }, a)
   | _ => (st, a)
 
+/-- the requests of one session hook (answered, reply ignored) -/
+def hookReqs (tp : Nat) (codes : List Nat) (st : St) : St :=
+  { st with reqs := (codes.map fun x => (⟨.hook, x, st.cur, tp⟩ : Req)).reverse ++ st.reqs }
+
+/-- the ECU's answer to the hooked attempt: with a pre hook that sends something it is `gh`, otherwise (base class)
+    the ECU cannot tell the attempt from the first one -/
+def hookedAns (c : Cfg) (E : Ecu) (p u : Sess) : Ans := if c.preHook.isEmpty then E.g p u else E.gh p u
+
+/-- `ecu.set_session(s, skip_hooks=False, use_db=False)`: pre hook, `10 s`, post hook after a positive reply -/
+def dscHooked (c : Cfg) (E : Ecu) (k : Kind) (top : Nat) (s : Sess) (st : St) : St × Ans :=
+  let a := hookedAns c E st.cur s
+  let st1 := exchange c k top s a (hookReqs top c.preHook st)
+  match a with
+  | .pos => (hookReqs top c.postHook { st1 with cur := s }, a)
+  | _ => (st1, a)
+
+/-- how `set_session_with_hooks_handling` calls `ECU.set_session`: (skip_hooks, use_db) of the first (plain) and of the
+    second (hooked) attempt, and these are the only `set_session` calls of the scanner.  `use_db = false`: a negative
+    answer is taken as it is - the `session_transition` rows that earlier scans of the same target left in the database
+    are never replayed.  That is why `dscOnce` / `dscHooked` are one exchange each and the model has no database. -/
+def setSessionCalls : List (Bool × Bool) := [(true, false), (false, false)]
+
 /-- `set_session_with_hooks_handling` -/
 def dsc (c : Cfg) (E : Ecu) (k : Kind) (top : Nat) (s : Sess) (st : St) : St × Ans :=
   let r1 := dscOnce c E k top s st
   if r1.2 = .nrc NRC_CNC ∧ c.hooks = true then
-    let r2 := dscOnce c E k top s r1.1
-    if r2.2 = .pos then r2 else (r2.1, r1.2)
+    let r2 := dscHooked c E k top s r1.1
+    -- a positive reply replaces the first one, a negative one is dropped, a missing one raises `MissingResponse`
+    if r2.2 = .pos then r2 else if r2.2 = .silent then r2 else (r2.1, r1.2)
   else r1
+
+/-- the session graph as `set_session_with_hooks_handling` sees it: an edge refused with conditionsNotCorrect
+    counts as positive when `--with-hooks` is given and the hooked attempt succeeds (and as unanswered when the hooked
+    attempt gets no reply) -/
+def edge (c : Cfg) (E : Ecu) (p u : Sess) : Ans :=
+  if c.hooks = true ∧ E.g p u = .nrc NRC_CNC then
+    match hookedAns c E p u with
+    | .pos => .pos
+    | .silent => .silent
+    | .nrc _ => .nrc NRC_CNC
+  else E.g p u
 
 /-- `stack[-1]` -/
 def top (stack : List Sess) : Sess := stack.getLastD 1
@@ -121,13 +167,18 @@ def recoverStack (c : Cfg) (E : Ecu) (tp : Nat) : List Sess → St → St × Boo
     let r := dsc c E .recover tp s st
     if r.2 = .pos then recoverStack c E tp rest r.1 else (r.1, false)
 
-/-- `ecu_reset(level)` + `wait_for_ecu` (one TesterPresent, answered) when the reset was accepted -/
+/-- the pings of `wait_for_ecu` (`max_retry=0`: one transmission each) -/
+def pingReqs (n tp : Nat) (st : St) : St :=
+  { st with reqs := List.replicate n (⟨.ping, 0, st.cur, tp⟩ : Req) ++ st.reqs }
+
+/-- `ecu_reset(level)` + `wait_for_ecu` when the reset was accepted: the pings of the boot phase stay unanswered,
+    the next one is answered -/
 def doReset (c : Cfg) (E : Ecu) (tp lvl : Nat) (st : St) : St :=
   let a := E.rst st.cur
-  let st := exchange c .reset tp lvl a st
+  let st' := exchange c .reset tp lvl a st
   match a with
-  | .pos => exchange c .ping tp 0 .pos { st with cur := 1 }
-  | _ => st
+  | .pos => pingReqs (E.boot st.cur + 1) tp { st' with cur := 1 }
+  | _ => st'
 
 def wantsReset (c : Cfg) : Option Nat :=
   match c.reset with
